@@ -573,6 +573,11 @@ def _sorted_zip_of_param(it: ast.Call, fn: ast.FunctionDef) -> bool:
     return isinstance(p, ast.Name) and p.id in {a.arg for a in fn.args.args}
 
 
+def _in_loop(fn: ast.FunctionDef, stmt: ast.stmt) -> bool:
+    """stmt sits in the body of a loop of fn (the sweep over candidate spacings)"""
+    return any(isinstance(l, (ast.For, ast.While)) and any(stmt is x for b in l.body for x in ast.walk(b)) for l in ast.walk(fn))
+
+
 ROWWISE_ACCEPT = {
     "first-sweep-element": "the sweep accumulator's first value is the field regenerated at the spacing the bisection last found feasible (same deterministic generator); no guard expresses it",
     "single-borehole": "a single borehole's response does not depend on where it stands: the 1X1 evaluation at the origin stands for the last borehole of the sparse field",
@@ -622,7 +627,7 @@ def _rowwise(prog: Program, res: Result, lb: int):
             why = f"guarded by excess({vkey(val)[:40]}, max_height) <= 0"
             if not okg:
                 txt = norm_stmt(e.node)
-                if key in via and was_none:
+                if was_none and (key in via or (key in final and _in_loop(fi.node, e.node))):
                     okf, whyf = sc.sweep_start_is_feasible_end(prog, fi)
                     if okf:
                         okg, why = True, "accepted: " + ROWWISE_ACCEPT["first-sweep-element"] + " - checked: " + whyf
